@@ -1,5 +1,82 @@
 import RV.Json
+import RV.Drv.Arith
+import RV.Oracle.Batch
 namespace RV.Drv.BatchCtx
-open Lean RV
-def handle : Handler := fun op _ _ => .error s!"BatchCtx: op {op} not implemented"
+open Lean RV RV.Arith RV.BatchCtx RV.Oracle.Batch RV.Drv.Arith
+
+def kindOfStr : String → R Kind
+  | "cloneSet" => .ok .cloneSet | "stsOrdered" => .ok .stsOrdered | "stsUnordered" => .ok .stsUnordered
+  | "daemonSet" => .ok .daemonSet | "depPartition" => .ok .depPartition | "depCanary" => .ok .depCanary
+  | "depBlueGreen" => .ok .depBlueGreen | "csBlueGreen" => .ok .csBlueGreen
+  | s => .error s!"kind {s}"
+
+def ctxToJson (c : Ctx) : Json :=
+  mkObj [("replicas", intJ c.replicas), ("updated", intJ c.updated), ("updatedReady", intJ c.updatedReady),
+    ("planned", intJ c.planned), ("desired", intJ c.desired), ("knobCur", iosToJson c.knobCur),
+    ("knobDes", iosToJson c.knobDes), ("failureThreshold", optJ iosToJson c.failureThreshold)]
+
+def ctxOfJson (j : Json) : R Ctx := do
+  return { replicas := ← fInt j "replicas", updated := ← fInt j "updated", updatedReady := ← fInt j "updatedReady",
+           planned := ← fInt j "planned", desired := ← fInt j "desired",
+           knobCur := ← iosOfJson (← jget j "knobCur"), knobDes := ← iosOfJson (← jget j "knobDes"),
+           failureThreshold := ← iosOptOfJson j "failureThreshold" }
+
+/-- the canonical form erases the text of non-percent strings -/
+def canonIos (j : Json) : Json :=
+  match jopt j "s" with
+  | some _ => mkObj [("s", strJ "?")]
+  | none => j
+
+def handle : Handler := fun op inp impl => do
+  match op with
+  | "calcUpgrade" =>
+    let kind ← kindOfStr (← fStr inp "kind")
+    let R ← fInt inp "replicas"
+    let entry ← iosOptOfJson inp "entry"
+    let nn ← fOptInt inp "noNeedUpdate"
+    let knobCur := (← iosOptOfJson inp "knobCur").getD (.int 0)
+    let ft ← iosOptOfJson inp "failureThreshold"
+    -- blue-green contexts do not carry the failure threshold
+    let ft := if kind = .depBlueGreen ∨ kind = .csBlueGreen then none else ft
+    let o : Obs := { kind, replicas := R, entry, noNeedUpdate := nn, knobCur,
+                     updated := ← fInt inp "updated", updatedReady := ← fInt inp "updatedReady", failureThreshold := ft }
+    match calcCtx o with
+    | .panic => return { model := mkObj [("panic", strJ "?")], tags := ["panic", s!"kind:{repr kind}"] }
+    | .ok c =>
+      let w := upgrade kind c
+      let model := mkObj [("ctx", ctxToJson c), ("write", optJ iosToJson w)]
+      -- oracles on the implementation's output
+      let mut holds : List (String × Bool) := []
+      let mut tags : List String := [s!"kind:{repr kind}", if w.isSome then "write" else "nowrite",
+        match entry with | some (.pct _) => "entry:pct" | some (.int _) => "entry:int" | some .bad => "entry:bad" | none => "entry:none",
+        if nn.isSome then "noNeedUpdate" else "plain"]
+      match entry, jopt impl "ctx" with
+      | some e, some ictxJ =>
+        let ictx ← ctxOfJson ictxJ
+        let iw : Option IntOrPct ← (match jopt impl "write" with
+          | none => pure none
+          | some wj => do pure (some (← iosOfJson wj)))
+        let g1 := gPctFallback kind R e nn
+        if g1 then tags := "guard:pctFallback" :: tags
+        match iw with
+        | some wv =>
+          holds := ("C01.exposure_bound", exposureBound kind R e nn wv) ::
+                   ("C01.monotone", monotone kind R c.knobCur wv) :: holds
+        | none => pure ()
+        -- C07.iv is stated for releases without no-need-update pods (rollback-in-batches counts pods differently)
+        if nn.isNone ∧ 0 ≤ R then
+          holds := ("C07.target_suffices", targetSuffices kind R c.knobCur iw ictx.desired) :: holds
+      | _, _ => pure ()
+      -- compare after canonicalising strings
+      return { model := model, holds := holds, tags := tags }
+  | "isReady" =>
+    let c ← ctxOfJson (← jget inp "ctx")
+    let lab ← fOptInt inp "labelled"
+    let r := isBatchReady c lab
+    let implReady := impl == strJ "ok"
+    return { model := strJ (if r = .ok then "ok" else "notReady"),
+             holds := [("C11.ready_means", !implReady || readyMeans c lab)],
+             tags := [s!"ready:{repr r}"] }
+  | _ => .error s!"batchctx: unknown op {op}"
+
 end RV.Drv.BatchCtx
